@@ -29,12 +29,17 @@ Proved for all inputs (unbounded):
   on every decimal integer literal, including "too large for uint64 becomes a float".
 * `escape_digits_value`: inside `\x`, `\u`, `\U`, on hex digits (what protoc requires)
   `ParseUint(·, 16, 32)` yields exactly their hexadecimal value.
+* `neg_int_node_iff`, `neg_int_node_value`, `neg_int64_accept_iff`: `- INT` becomes an int64 node exactly
+  up to 2^63 and is then accepted for int64 targets (model `NumNode.numLit` of the grammar action).
+* `enum_number_full_refuted`: enum value numbers use `NewNegativeIntLiteralNode` without that guard, so
+  `A = -18446744073709551615` is accepted as 1 (`-int64(n)` wraps); `enum_number_partial` up to 2^63.
 Float values are tied to `strconv.ParseFloat` by correspondence only (model `Num.roundF64`).
 -/
 import PCV.Model.Lex
 import PCV.Spec.Lex
 import PCV.Lemmas.NumLemmas
 import PCV.Lemmas.StrSim
+import PCV.Model.NumNode
 namespace PCV.Props.C14
 open PCV.Lex PCV.FileInfo PCV.Spec.Lex PCV.Num PCV.Lemmas.NumLemmas PCV.Lemmas.StrSim PCV.Lemmas.LexInv
 
@@ -214,6 +219,58 @@ theorem lexNumber_dec (st : St) (d : UInt8) (rest : List UInt8) (hd : isDig d = 
   rw [int_value_eq_dec (d :: rest) (by simp) hall]
   simp [hle]
 
+
+/-! ### negated integer literals: which AST node, which value -/
+section SignedLiterals
+open PCV.NumNode
+
+/-- **`neg_int_node_iff`.** The grammar turns `- INT` into an int64 node exactly when the magnitude is
+    at most 2^63 (so that `-9223372036854775808` is an integer and `-9223372036854775809` a float) -/
+theorem neg_int_node_iff (n : Nat) : (∃ i, numLit true false n = .int i) ↔ n ≤ 2 ^ 63 := by
+  unfold numLit
+  by_cases h : n > 2 ^ 63
+  · simp [h] <;> omega
+  · simp [h] <;> omega
+
+/-- and then the node carries the exact value, which fits an int64 -/
+theorem neg_int_node_value (n : Nat) (h : n ≤ 2 ^ 63) :
+    numLit true false n = .int (-(n : Int)) ∧ -(2 ^ 63 : Int) ≤ -(n : Int) ∧ -(n : Int) ≤ 2 ^ 63 - 1 := by
+  have h' : ¬ n > 2 ^ 63 := by omega
+  refine ⟨by simp [numLit, h'], by omega, by omega⟩
+
+/-- hence a negated literal is accepted for an int64 target exactly when -n ≥ -2^63 -/
+theorem neg_int64_accept_iff (n : Nat) :
+    (scalarValue .int64 (numLit true false n)).isSome = true ↔ n ≤ 2 ^ 63 := by
+  unfold numLit
+  by_cases h : n > 2 ^ 63
+  · simp [h, scalarValue] <;> omega
+  · simp [h, scalarValue] <;> omega
+
+/-- `NewNegativeIntLiteralNode` computes `-int64(n)`: exact up to 2^63, wrapped around above -/
+theorem negWrap_exact_iff (n : Nat) (hn : n < 2 ^ 64) : negWrap n = -(n : Int) ↔ n ≤ 2 ^ 63 := by
+  unfold negWrap
+  by_cases h : n ≤ 2 ^ 63
+  · simp [h]
+  · simp [h]; omega
+
+/-- the full statement for enum value numbers (`enumValueNumber : '-' _INT_LIT` has no guard):
+    an accepted negated number is the number written -/
+def enum_number_full : Prop :=
+  ∀ n : Nat, n < 2 ^ 64 → ∀ v, enumNumber true n = some v → v = -(n : Int)
+
+/-- REFUTED: `A = -18446744073709551615` is accepted as the enum number 1 -/
+theorem enum_number_full_refuted : ¬ enum_number_full := by
+  intro h
+  have := h (2 ^ 64 - 1) (by decide) 1 (by decide)
+  revert this; decide
+
+/-- up to 2^63 the enum number is exact and range-checked as written -/
+theorem enum_number_partial (n : Nat) (h : n ≤ 2 ^ 63) :
+    enumNumber true n = (if -(n : Int) < -(2 ^ 31) ∨ -(n : Int) > 2 ^ 31 - 1 then none else some (-(n : Int))) := by
+  simp [enumNumber, asInt32, negWrap, h]
+
+end SignedLiterals
+
 -- non-vacuity
 example : litOutcome [0x34, 0x32] = .int 42 ∧ protocNumber [0x34, 0x32] = .int 42 := by decide
 example : agreesStr [0x22, 0x5C, 0x75, 0x30, 0x30, 0x65, 0x39, 0x22] := by decide   -- "é"
@@ -229,5 +286,10 @@ end PCV.Props.C14
 #print axioms PCV.Props.C14.int_value_eq_oct
 #print axioms PCV.Props.C14.int_value_eq_hex
 #print axioms PCV.Props.C14.escape_digits_value
+#print axioms PCV.Props.C14.neg_int_node_iff
+#print axioms PCV.Props.C14.neg_int64_accept_iff
+#print axioms PCV.Props.C14.negWrap_exact_iff
+#print axioms PCV.Props.C14.enum_number_full_refuted
+#print axioms PCV.Props.C14.enum_number_partial
 #print axioms PCV.Props.C14.protocNumber_dec
 #print axioms PCV.Props.C14.lexNumber_dec
